@@ -175,7 +175,7 @@ PROPS["C12"] = {
 
 PROPS["C17"] = {
     "suites": [{"name": "config", "quick": 3000, "thorough": 60000, "thorough_seeds": 3}],
-    "trip_re": "accepted_dangling|accepted_unresolvable.*|roundtrip_differs.*",
+    "trip_re": "accepted_dangling|accepted_unresolvable.*|roundtrip_differs.*|differs_from_fresh:watch.*",
     "rule": "config: configurations with 1-2 compress profiles and caches, 1-3 upstreams and locations, 1-2 servers, 30% of the names from a "
             "list needing YAML quoting (yes, null, 123, 'a: b', ~, true, 0x1f, -, #x, [a], {b}, quotes, leading/trailing blank, tab, 1e3, off, "
             "non-ASCII), optional fields set or unset; then exactly one of 18 defects (4 dangling references, 14 malformed fields) or none. "
@@ -190,7 +190,7 @@ PROPS["C17"] = {
 PROPS["C19"] = {
     "suites": [{"name": "upsel", "quick": 400, "thorough": 6000, "thorough_seeds": 3},
                {"name": "upsel", "args": ["-opt", "settle"], "quick": 2, "thorough": 8, "thorough_seeds": 1}],
-    "trip_re": "sent_to_unhealthy|backup_while_primary|no_server_while_healthy|no_5xx",
+    "trip_re": "sent_to_unhealthy|backup_while_primary|no_server_while_healthy|no_5xx|rr_unbalanced",
     "rule": "upsel: 1-4 real local servers (65% up, 35% backup) behind pike's NewUpstreamServer + target picker + elton proxy, every policy "
             "(first/random/roundRobin/leastconn/unset); three phases of 1-7 sequential requests, between phases one or two servers are "
             "stopped/restarted (listener closed/reopened) and given the status the checker would set; thorough adds a mode that only flips "
@@ -219,7 +219,8 @@ PROPS["C08"] = {
 
 PROPS["C16"] = {
     "suites": [{"name": "reconf", "stateful": True, "quick": 400, "thorough": 8000, "thorough_seeds": 3},
-               {"name": "loc", "quick": 400, "thorough": 8000, "thorough_seeds": 1}],
+               {"name": "loc", "quick": 400, "thorough": 8000, "thorough_seeds": 1},
+               {"name": "config", "quick": 40, "thorough": 400, "thorough_seeds": 1}],
     "trip_re": "differs_from_fresh.*|surviving_cache_replaced|removed_still_listening|not_listening_as_configured|routing",
     "rule": "reconf: sequences of 2-6 valid configurations over 3 compress profiles (incl. one named bestCompression), 3 caches, 3 upstreams, "
             "3 locations, 3 server addresses — each present or absent, options changing (levels, sizes, policy, Accept-Encoding, added "
